@@ -53,8 +53,24 @@ def gen_election(rng: random.Random, tier: str) -> dict:
         script = random_script(rng, names, MSG, timeout_scale=to * rng.choice([0.05, 0.3, 1.0]))
     views = {}
     adds = []
-    mode = rng.choice(["full", "full", "partial", "join"])
-    if mode == "full":
+    mode = rng.choice(["full", "full", "partial", "join", "stale-leader"])
+    stale = None
+    if mode == "stale-leader":
+        # the established leader is cut off, a higher-named node joins the rest and wins, the partition heals and the
+        # old leader's heartbeats (lower term) reach the followers again
+        joiner = names[-1]
+        old = names[-2]
+        t_cut = round(rng.uniform(3.0 * to, 5.0 * to), 6)
+        t_join = round(t_cut + rng.uniform(0.0, 2.0 * to), 6)
+        t_heal = round(t_cut + rng.uniform(4.0 * to, 9.0 * to), 6)
+        stale = {"at": t_cut, "heal_at": t_heal, "a": [old], "b": [x for x in names if x != old], "asym": False}
+        for x in names:
+            views[x] = list(names) if x == joiner else [y for y in names if y != joiner]
+            if x != joiner:
+                adds.append({"at": round(t_join + rng.choice([0.0, rng.uniform(0, 0.2 * to)]), 6), "node": x, "member": joiner})
+        if strategy == "randomized" or rng.random() < 0.7:
+            strategy = "bully"
+    elif mode == "full":
         for x in names:
             views[x] = list(names)
     elif mode == "partial":
@@ -104,11 +120,11 @@ def gen_election(rng: random.Random, tier: str) -> dict:
             t0 = round(base + rng.uniform(0.0, 0.02 * to), 6)
         else:
             t0 = round(rng.uniform(0.0, to), 6)
-        if mode == "join" and x == joiner:
+        if mode in ("join", "stale-leader") and x == joiner:
             t0 = t_join
         starts.append({"node": x, "at": t0})
     crashes = []
-    if not fault_free and rng.random() < 0.35:
+    if not fault_free and mode != "stale-leader" and rng.random() < 0.35:
         for x in rng.sample(names, rng.choice([1, 1, 2])):
             c_at = round(rng.uniform(0.5 * to, 6 * to), 6)
             crashes.append({"node": x, "at": c_at, "restart_at": round(c_at + rng.uniform(0.5 * to, 4 * to), 6) if rng.random() < 0.6 else None})
@@ -123,12 +139,14 @@ def gen_election(rng: random.Random, tier: str) -> dict:
         "adds": sorted(adds, key=lambda a: a["at"]),
         "starts": starts,
         "crashes": crashes,
-        "partitions": gen_partitions(rng, names, 0.5 * to, 6 * to) if not fault_free and rng.random() < 0.3 else [],
+        "partitions": [stale]
+        if stale
+        else (gen_partitions(rng, names, 0.5 * to, 6 * to) if not fault_free and rng.random() < 0.3 else []),
         "order": order,
         "start_pattern": start_pattern,
         "fault_free": fault_free,
         "gseed": rng.randrange(1 << 30),
-        "end": round(12 * to, 6),
+        "end": round((stale["heal_at"] + 5 * to) if stale else 12 * to, 6),
     }
 
 
@@ -145,6 +163,7 @@ class ElectionMonitor:
         self.flagged: set = set()
         self.n_samples = 0
         self.wire_victories: dict = {}  # term announced on the wire -> set(leaders)
+        self.own: dict = {n.name: {} for n in nodes}  # participant -> term -> first leader it reported for that term
         self.views_differed = False  # some two participants had different member views at some sampled moment
 
     def on_event(self, ev):
@@ -185,6 +204,29 @@ class ElectionMonitor:
                 how = "other"
             rec = (round(now, 6), n.name, term, leader, how, ev.event_type)
             self.reports.append(rec)
+            mine = self.own[n.name]
+            if term not in mine:
+                mine[term] = rec
+            elif mine[term][3] != leader:
+                # one participant, one of ITS term values, two different leaders over time
+                if node is n and ev.event_type == "LeaderHeartbeat":
+                    ht = md.get("term")
+                    rel = "equal" if ht == term else ("lower" if isinstance(ht, int) and ht < term else "other")
+                    shape = f"leader-replaced-by-heartbeat-carrying-{rel}-term"
+                else:
+                    shape = f"leader-replaced-on-{ev.event_type}"
+                shape = ("member-views-differed/" if self.views_differed else "member-views-always-identical/") + shape
+                if ("own", shape) not in self.flagged:
+                    self.flagged.add(("own", shape))
+                    first = mine[term]
+                    self.res.add(
+                        "one-leader-per-term-per-participant",
+                        COMP,
+                        shape,
+                        f"{n.name} reported leader {first[3]} for its term {term} from t={first[0]} and leader {leader} for the same term at t={rec[0]} "
+                        f"(trigger {ev.event_type} from {md.get('source')} announcing term {md.get('term')})",
+                        {"reports": [r for r in self.reports if r[1] == n.name][-30:], "trace": self.trace[-120:]},
+                    )
             d = self.by_term.setdefault(term, {})
             if leader not in d:
                 d[leader] = rec
